@@ -35,7 +35,7 @@ theorem entryAt_of_not_mem [Zero α] (ents : List (Nat × α)) (j : Nat) (h : j 
     have : j ∉ es.map (·.1) := fun hm => h (by simp only [List.map_cons, List.mem_cons]; exact Or.inr hm)
     simp [hc, ih this]
 
-theorem mergeRow_sorted [Zero α] (prev : List α) (ents : List (Nat × α)) (j : Nat)
+theorem mergeRow_sortedFrom [Zero α] (prev : List α) (ents : List (Nat × α)) (j : Nat)
     (h : SortedFrom ents j) :
     mergeRow prev ents j = (List.range' j prev.length).map (CS.entryAt ents) := by
   induction prev generalizing ents j with
@@ -81,7 +81,7 @@ theorem mergeRow_sorted [Zero α] (prev : List α) (ents : List (Nat × α)) (j 
 theorem mergeRow_dense [Zero α] (buf : List α) (ents : List (Nat × α)) (n : Nat) (hn : buf.length = n)
     (h : (ents.map (·.1)).Pairwise (· < ·)) :
     mergeRow buf ents 0 = CS.denseVec n ents := by
-  rw [mergeRow_sorted buf ents 0 ⟨h, fun _ _ => Nat.zero_le _⟩, hn, CS.denseVec, List.range_eq_range']
+  rw [mergeRow_sortedFrom buf ents 0 ⟨h, fun _ _ => Nat.zero_le _⟩, hn, CS.denseVec, List.range_eq_range']
 
 /-! ### insertion sort of the entries of one vector -/
 
@@ -1108,5 +1108,237 @@ theorem lookupBy_getElem {β : Type} (ids : List Id) (xs : List β) (hn : ids.No
         have hne : a ≠ as[i] := fun e => hn.1 (e ▸ List.getElem_mem hi')
         simp only [List.getElem_cons_succ, lookupBy, hne, if_false]
         exact ih xs hn.2 i hi' (by simpa using hx)
+
+theorem lookupBy_eq_getElem? {β : Type} (ids : List Id) (xs : List β) (id : Id) (h : id ∈ ids) :
+    lookupBy ids xs id = xs[ids.idxOf id]? := by
+  induction ids generalizing xs with
+  | nil => cases h
+  | cons a as ih =>
+    cases xs with
+    | nil => simp [lookupBy]
+    | cons x xs =>
+      by_cases he : a = id
+      · simp [lookupBy, he, List.idxOf_cons]
+      · have hm : id ∈ as := by
+          rcases List.mem_cons.mp h with h | h
+          · exact absurd h.symm he
+          · exact h
+        have hb : (a == id) = false := by simpa using he
+        simp only [lookupBy, he, if_false, List.idxOf_cons, hb, cond_false, List.getElem?_cons_succ]
+        exact ih xs hm
+
+theorem indexOf?_getElem (ids : List Id) (hn : ids.Nodup) (i : Nat) (hi : i < ids.length) :
+    indexOf? ids ids[i] = some i := by
+  rw [indexOf?_of_mem ids _ (List.getElem_mem hi), hn.idxOf_getElem i hi]
+
+theorem vec?_getElem (t : Table α) (hwf : t.WF) (ax : Axis) (hn : (t.ids ax).Nodup) (i : Nat)
+    (hi : i < (t.ids ax).length) (hv : i < (vecs t ax).length) :
+    t.vec? ax (t.ids ax)[i] = some (vecs t ax)[i] := by
+  cases ax with
+  | obs => exact lookupBy_getElem t.obs t.rows hn i hi hv
+  | samp =>
+    simp only [Table.vec?, Table.col?, Table.ids] at hn hi ⊢
+    rw [indexOf?_getElem t.samp hn i hi]
+    simp [vecs, transposeGrid]
+
+theorem mdOf?_getElem (t : Table α) (hwf : t.WF) (ax : Axis) (hn : (t.ids ax).Nodup) (i : Nat)
+    (hi : i < (t.ids ax).length) :
+    (mdArgs (t.md ax) (t.ids ax).length)[i]? = some (t.mdOf? ax (t.ids ax)[i]) := by
+  unfold Table.mdOf?
+  cases hm : t.md ax with
+  | none => simp [mdArgs, hi]
+  | some m =>
+    have hml : m.length = (t.ids ax).length := by
+      obtain ⟨_, _, ho, hs⟩ := hwf
+      cases ax with
+      | obs => exact ho m hm
+      | samp => exact hs m hm
+    simp only [mdArgs, Option.bind_some, List.getElem?_map]
+    rw [lookupBy_getElem _ m hn i hi (by omega), List.getElem?_eq_getElem (by omega)]
+    rfl
+
+theorem callsOf_getElem? (vs : List (List α)) (ids : List Id) (mds : List (Option Md)) (i : Nat) :
+    (callsOf vs ids mds)[i]? =
+      match vs[i]?, ids[i]?, mds[i]? with
+      | some v, some id, some md => some ⟨v, id, md⟩
+      | _, _, _ => none := by
+  induction vs generalizing ids mds i with
+  | nil => simp [callsOf]
+  | cons v vs ih =>
+    cases ids with
+    | nil => simp [callsOf]
+    | cons id ids =>
+      cases mds with
+      | nil => simp [callsOf]
+      | cons md mds =>
+        cases i with
+        | zero => simp [callsOf]
+        | succ i => simp only [callsOf, List.getElem?_cons_succ]; exact ih ids mds i
+
+/-- the true call of an ID: its vector and metadata looked up BY ID in the table -/
+def callById (t : Table α) (ax : Axis) (id : Id) : Call α := ⟨(t.vec? ax id).getD [], id, t.mdOf? ax id⟩
+
+theorem callsSpec_byId [Zero α] (t : Table α) (hwf : t.WF) (ax : Axis) (hn : (t.ids ax).Nodup) (layout : CS α)
+    (hl : LayoutOf t ax layout) :
+    callsOf (vecs t ax) (t.ids ax) (mdArgs (t.md ax) (t.ids ax).length) = (t.ids ax).map (callById t ax) := by
+  have hvl := vecs_length t ax layout hl
+  apply List.ext_getElem?
+  intro i
+  rw [callsOf_getElem?, List.getElem?_map]
+  by_cases hi : i < (t.ids ax).length
+  · rw [List.getElem?_eq_getElem hi, List.getElem?_eq_getElem (show i < (vecs t ax).length by omega),
+      mdOf?_getElem t hwf ax hn i hi]
+    simp only [Option.map_some, callById, vec?_getElem t hwf ax hn i hi (by omega), Option.getD_some]
+  · have : (t.ids ax).length ≤ i := by omega
+    rw [List.getElem?_eq_none this]
+    split <;> simp_all
+
+/-! ### the specified result, looked up by ID -/
+
+theorem filterMap_congr' {β γ : Type} (l : List β) (f g : β → Option γ) (h : ∀ x ∈ l, f x = g x) :
+    l.filterMap f = l.filterMap g := by
+  induction l with
+  | nil => rfl
+  | cons x xs ih =>
+    simp only [List.filterMap_cons, h x List.mem_cons_self,
+      ih (fun y hy => h y (List.mem_cons_of_mem _ hy))]
+
+theorem filterAxis_ids (t : Table α) (mask : List Bool) (ax : Axis) :
+    (filterAxis t mask ax).ids ax = filterMask (t.ids ax) mask := by cases ax <;> rfl
+
+theorem filterAxis_other_ids (t : Table α) (mask : List Bool) (ax : Axis) :
+    (filterAxis t mask ax).ids ax.other = t.ids ax.other := by cases ax <;> rfl
+
+theorem filterAxis_other_md (t : Table α) (mask : List Bool) (ax : Axis) :
+    (filterAxis t mask ax).md ax.other = t.md ax.other := by cases ax <;> rfl
+
+theorem filterAxis_md (t : Table α) (mask : List Bool) (ax : Axis) :
+    (filterAxis t mask ax).md ax = (t.md ax).map (filterMask · mask) := by cases ax <;> rfl
+
+theorem filterAxis_ttype (t : Table α) (mask : List Bool) (ax : Axis) :
+    (filterAxis t mask ax).ttype = t.ttype := by cases ax <;> rfl
+
+/-- a kept ID keeps its vector -/
+theorem filterAxis_vec? (t : Table α) (mask : List Bool) (ax : Axis) (hn : (t.ids ax).Nodup) (id : Id)
+    (hm : id ∈ filterMask (t.ids ax) mask) : (filterAxis t mask ax).vec? ax id = t.vec? ax id := by
+  cases ax with
+  | obs => exact lookupBy_filterMask t.obs t.rows mask id hn hm
+  | samp =>
+    simp only [Table.ids] at hn hm
+    have hmem : id ∈ t.samp := mem_filterMask _ _ _ hm
+    simp only [Table.vec?, Table.col?, filterAxis, indexOf?_of_mem _ _ hm, indexOf?_of_mem _ _ hmem, Option.map_some,
+      colAt, List.filterMap_map]
+    congr 1
+    apply filterMap_congr'
+    intro r _
+    simp only [Function.comp]
+    rw [← lookupBy_eq_getElem? _ _ _ hm, ← lookupBy_eq_getElem? _ _ _ hmem]
+    exact lookupBy_filterMask t.samp r mask id hn hm
+
+/-- a kept ID keeps its metadata -/
+theorem filterAxis_mdOf? (t : Table α) (mask : List Bool) (ax : Axis) (hn : (t.ids ax).Nodup) (id : Id)
+    (hm : id ∈ filterMask (t.ids ax) mask) : (filterAxis t mask ax).mdOf? ax id = t.mdOf? ax id := by
+  unfold Table.mdOf?
+  rw [filterAxis_md, filterAxis_ids]
+  cases t.md ax with
+  | none => rfl
+  | some m => exact lookupBy_filterMask (t.ids ax) m mask id hn hm
+
+theorem wfb_of_wf (t : Table α) (h : t.WF) : t.wfb = true := by
+  obtain ⟨h1, h2, h3, h4⟩ := h
+  simp only [Table.wfb, Bool.and_eq_true, beq_iff_eq, List.all_eq_true]
+  refine ⟨⟨⟨h1, h2⟩, ?_⟩, ?_⟩
+  · cases hm : t.omd with
+    | none => rfl
+    | some m => simpa using h3 m hm
+  · cases hm : t.smd with
+    | none => rfl
+    | some m => simpa using h4 m hm
+
+theorem filterAxis_wf (t : Table α) (h : t.WF) (mask : List Bool) (ax : Axis)
+    (hm : mask.length = (t.ids ax).length) : (filterAxis t mask ax).WF := by
+  obtain ⟨h1, h2, h3, h4⟩ := h
+  cases ax with
+  | obs =>
+    simp only [Table.ids] at hm
+    refine ⟨?_, ?_, ?_, h4⟩
+    · show (filterMask t.rows mask).length = (filterMask t.obs mask).length
+      rw [length_filterMask _ _ (by omega), length_filterMask _ _ (by omega)]
+    · intro r hr
+      exact h2 r (mem_filterMask _ _ _ hr)
+    · intro m hmd
+      simp only [filterAxis, Option.map_eq_some_iff] at hmd
+      obtain ⟨m0, hm0, rfl⟩ := hmd
+      have := h3 m0 hm0
+      show (filterMask m0 mask).length = (filterMask t.obs mask).length
+      rw [length_filterMask _ _ (by omega), length_filterMask _ _ (by omega)]
+  | samp =>
+    simp only [Table.ids] at hm
+    refine ⟨?_, ?_, h3, ?_⟩
+    · show (t.rows.map (filterMask · mask)).length = t.obs.length
+      simpa using h1
+    · intro r hr
+      simp only [filterAxis, List.mem_map] at hr
+      obtain ⟨r0, hr0, rfl⟩ := hr
+      have := h2 r0 hr0
+      show (filterMask r0 mask).length = (filterMask t.samp mask).length
+      rw [length_filterMask _ _ (by omega), length_filterMask _ _ (by omega)]
+    · intro m hmd
+      simp only [filterAxis, Option.map_eq_some_iff] at hmd
+      obtain ⟨m0, hm0, rfl⟩ := hmd
+      have := h4 m0 hm0
+      show (filterMask m0 mask).length = (filterMask t.samp mask).length
+      rw [length_filterMask _ _ (by omega), length_filterMask _ _ (by omega)]
+
+/-! ### masks given as ID lists -/
+
+/-- naming the IDs that a positional mask keeps gives that mask back (distinct IDs) -/
+theorem contains_filterMask_self (ids : List Id) (hn : ids.Nodup) (m : List Bool) (hm : m.length = ids.length) :
+    ids.map (fun id => (filterMask ids m).contains id) = m := by
+  induction ids generalizing m with
+  | nil => cases m with
+    | nil => rfl
+    | cons _ _ => simp at hm
+  | cons a as ih =>
+    simp only [List.nodup_cons] at hn
+    cases m with
+    | nil => simp at hm
+    | cons b bs =>
+      have hbs : bs.length = as.length := by simpa using hm
+      have hrest : ∀ (F : List Id), as.map (fun id => (a :: F).contains id) = as.map (fun id => F.contains id) := by
+        intro F
+        apply List.map_congr_left
+        intro id hid
+        have hne : id ≠ a := fun e => hn.1 (e ▸ hid)
+        have : (id == a) = false := by simpa using hne
+        rw [List.contains_cons, this, Bool.false_or]
+      cases b
+      · have hna : (filterMask as bs).contains a = false := by
+          simpa using fun hm => hn.1 (mem_filterMask _ _ _ hm)
+        simp only [filterMask, Bool.false_eq_true, if_false, List.map_cons, hna, ih hn.2 bs hbs]
+      · simp only [filterMask, if_true, List.map_cons, List.contains_cons, beq_self_eq_true, Bool.true_or]
+        rw [show as.map (fun id => (id == a || (filterMask as bs).contains id)) =
+              as.map (fun id => (a :: filterMask as bs).contains id) from
+                List.map_congr_left (fun id _ => (List.contains_cons ..).symm), hrest,
+            ih hn.2 bs hbs]
+
+/-- the mask "leading `n` positions" -/
+def takeMask : Nat → Nat → List Bool
+  | _, 0 => []
+  | 0, len + 1 => false :: takeMask 0 len
+  | n + 1, len + 1 => true :: takeMask n len
+
+theorem takeMask_length (n len : Nat) : (takeMask n len).length = len := by
+  induction len generalizing n with
+  | zero => cases n <;> rfl
+  | succ len ih => cases n <;> simp [takeMask, ih]
+
+theorem filterMask_takeMask {β : Type} (xs : List β) (n : Nat) : filterMask xs (takeMask n xs.length) = xs.take n := by
+  induction xs generalizing n with
+  | nil => cases n <;> rfl
+  | cons x xs ih =>
+    cases n with
+    | zero => simp only [List.length_cons, takeMask, filterMask, Bool.false_eq_true, if_false, ih 0, List.take_zero]
+    | succ n => simp only [List.length_cons, takeMask, filterMask, if_true, ih n, List.take_succ_cons]
 
 end Biom.C08
